@@ -287,11 +287,31 @@ def dep_bound(ap, p, sc):
         ps = sc["tasks"].get(fid(q))
         if not ps or gaplen:
             return None
-        ref = ps["start"] if onstart else ps["end"]
+        if "kids" in idx[tuple(q)]:
+            # a container begins with its first and ends with its last leaf - whatever date is reported for it
+            below = [sc["tasks"].get(fid(r)) for r, m in idx.items() if len(r) > len(q) and r[:len(q)] == tuple(q) and "kids" not in m]
+            if not below or any(x is None or not x["sched"] or x["start"] is None or x["end"] is None for x in below):
+                return None
+            ref = min(x["start"] for x in below) if onstart else max(x["end"] for x in below)
+        else:
+            ref = ps["start"] if onstart else ps["end"]
         if ref is None:
             return None
         b = max(b, ref + gap)
     return b
+
+
+_EDGES = {}
+
+
+def _edges(ap):
+    import projects
+    key = id(ap)
+    if key not in _EDGES or _EDGES[key][0] is not ap:
+        if len(_EDGES) > 2000:
+            _EDGES.clear()
+        _EDGES[key] = (ap, projects.all_edges(ap))
+    return _EDGES[key][1]
 
 
 def c06(ap, obs, sc):
@@ -312,8 +332,19 @@ def c06(ap, obs, sc):
             bad.append({"what": "start after end", "task": t, "start": st["start"], "end": st["end"]})
             continue
         if n.get("effort") is None:
-            if st["start"] != st["end"]:
+            own = [n.get("start"), n.get("end")]
+            if "milestone" not in n and None not in own:
+                # a leaf given by its two dates alone is no milestone: it is reported with exactly these dates
+                if (st["start"], st["end"]) != tuple(own):
+                    bad.append({"what": "a leaf given by a start and an end alone is not reported with these dates", "task": t,
+                                "written": own, "reported": [st["start"], st["end"]]})
+            elif st["start"] != st["end"]:
                 bad.append({"what": "a milestone has start != end", "task": t, "start": st["start"], "end": st["end"]})
+            elif "milestone" in n and own.count(None) == 1 and not _edges(ap).get(tuple(p)) and not n.get("sched") \
+                    and st["start"] != [d for d in own if d is not None][0]:
+                # a milestone without dependencies that is given ONE date of its own (start or end) happens at that date
+                bad.append({"what": "a milestone with a date of its own (and no dependencies) is not reported at that date", "task": t,
+                            "written": {"start": n.get("start"), "end": n.get("end")}, "reported": st["start"]})
             elif forward_task(ap, n) and n.get("end") is None:
                 b = dep_bound(ap, p, sc)
                 if b is not None and st["start"] != b:
@@ -574,8 +605,9 @@ def c11(ap, res, size_hint=1):
     obs = res["obs"]
     if obs.get("start") is None or obs.get("end") is None:
         return [{"what": "the project was accepted but has no start / end: the scheduling horizon is undefined", "start": obs.get("start"), "end": obs.get("end")}]
-    if res["wall"] > 20 + 0.5 * size_hint:
-        bad.append({"what": "scheduling took longer than the bound proportional to project size", "wall_s": res["wall"]})
+    # processor time of the worker, not wall-clock time: the latter triples when other checks run next to this one
+    if res.get("cpu", res["wall"]) > 30 + 0.5 * size_hint:
+        bad.append({"what": "scheduling took more processor time than the bound proportional to project size", "cpu_s": res.get("cpu"), "wall_s": res["wall"]})
     warn = "could not be scheduled" in res.get("stderr", "") or "Deadlock" in res.get("stderr", "")
     for sc in obs["scenarios"]:
         for t, st in sc["tasks"].items():
